@@ -473,3 +473,8 @@ Definition noclash_laxb (st : list stype) : bool := forallb (noclash1_lax (S (Li
 Definition wf_descr_laxb (d : descr) : bool :=
   let d2 := prep d in
   nodupb (map t_name d2) && forallb (wf_tdeclb d2) d2 && noclash_laxb (map stype_of_decl (user_decls d2)).
+Definition wf_ts_laxb (s : tsys) : bool :=
+  nodupb (map st_name (s_types s)) && forallb (wf_stypeb (s_types s)) (s_types s) && noclash_laxb (s_types s)
+  && nodupb (s_redecl s)
+  && forallb (fun n => (is_builtin n && negb (String.eqb n "uima.cas.TOP")) || String.eqb n DOCANN) (s_redecl s)
+  && docann_okb s.
